@@ -86,3 +86,68 @@ def find_deadlock_cycles(edges, classes_of=None):
     for s in nodes:
         dfs(s, s, [], {s})
     return cycles
+
+
+def single_threaded_edges(world, E):
+    """Call edges (caller function name, call inst id) whose callee subtree runs while no internal thread exists and,
+    by the README's exclusivity of start/stop, no application thread is inside the library:
+      * calls in a start function that dominate the call which creates the threads,
+      * calls in the stop function that lie behind every pthread_join (guard block of each join dominates, join unreachable)."""
+    P = world.P
+    out = set()
+    why = {}
+    creators = {f.name for f in P.repo_functions() if any(True for _ in f.calls("pthread_create"))}
+    joiners = {f.name for f in P.repo_functions() if any(True for _ in f.calls("pthread_join"))}
+    for n, label in E.root_list:
+        if label != "ADMIN":
+            continue
+        f = P.functions[n]
+        reach_create = [c for c in f.calls() if c.callee and (c.callee in creators or (c.callee in P.functions and P.reachable_functions([c.callee]) & creators))]
+        for c in f.calls():
+            if not c.callee or c in reach_create:
+                continue
+            if reach_create and all(f.dominates(c, t) for t in reach_create):
+                out.add((f.name, c.id))
+                why[(f.name, c.id)] = "before thread creation in %s" % f.name
+        joins = list(f.calls("pthread_join"))
+        if joins:
+            for c in f.calls():
+                if not c.callee or c.callee == "pthread_join":
+                    continue
+                ok = True
+                for j in joins:
+                    guards = j.bb.pred
+                    if c.bb.id in f.reachable_from(j.bb.id) and not (c.bb.id == j.bb.id and c.idx < j.idx):
+                        # c after j on some path: fine
+                        pass
+                    if j.bb.id in f.reachable_from(c.bb.id) and not (c.bb.id == j.bb.id and c.idx > j.idx):
+                        ok = False   # a join can still follow c
+                        break
+                    if not any(g in f.dom().get(c.bb.id, ()) for g in guards) and not f.dominates(j, c):
+                        ok = False
+                        break
+                if ok:
+                    out.add((f.name, c.id))
+                    why[(f.name, c.id)] = "after all joins in %s" % f.name
+    return out, why
+
+
+def concurrent_contexts(world, E):
+    """ctx keys reachable from a root without passing a single-threaded call edge, with the root labels reaching them"""
+    st_edges, why = single_threaded_edges(world, E)
+    labels = defaultdict(set)
+    for rk, ls in E.roots.items():
+        seen = set()
+        stack = [rk]
+        while stack:
+            k = stack.pop()
+            if k in seen:
+                continue
+            seen.add(k)
+            labels[k] |= ls
+            c = E.ctxs[k]
+            for (ci, ck, _ls) in c.calls:
+                if (c.fn.name, ci.id) in st_edges:
+                    continue
+                stack.append(ck)
+    return labels, st_edges, why
